@@ -91,8 +91,16 @@ def chunk_prev_replace (E : Nat) (c new : Chunk) (s : St) : St × Outcome (List 
     else (s, .bad "prev.replace: not the current chunk / not the static empty chunk")
   | [] => (s, .bad "prev.replace on the static empty chunk")
 
+/-- the footer a chain pointer points at: its newest chunk, or the static empty chunk -/
+def chain_head (E : Nat) (chain : List Chunk) : Chunk := chain.headD (emptyChunk E)
+
+/-- the global allocator's `dealloc(ptr, layout)` -/
+def global_dealloc (ptr : Nat) (l : Layout) (s : St) : St × Outcome Unit :=
+  ({ s with evs := s.evs ++ [.free ptr l.size l.align] }, .ok ())
+
 /-- `dealloc_chunk_list(chain)`: every chunk of the chain goes back to the global allocator with the layout it was
-obtained with, newest first (the `while` loop of the source is not translated) -/
+obtained with, newest first (the specification `reset`'s translation uses; the `while` loop itself is translated in
+Gen/FnChunks.lean and proved equal to this in Props/GenFnChunks.lean) -/
 def dealloc_chunk_list (chain : List Chunk) (s : St) : St × Outcome Unit :=
   ({ s with evs := s.evs ++ chain.map freeEv }, .ok ())
 
